@@ -927,7 +927,7 @@ class OverlayStore(Store):
         d = set() if ld is None else set(ld)
         ld = self.fallback.listdir(key)
         d = d if ld is None else d.union(ld)
-        return [x for x in sorted(d) if key + "/" + x not in self.removed]
+        return [x for x in sorted(d) if join_key(key, x) not in self.removed]
 
     def makedir(self, key):
         if key in self.removed:
